@@ -110,6 +110,13 @@ func buildC06(c *c06Case) *liveCase {
 			banner = "<login-banner>" + marker + " netspoc</login-banner>"
 		}
 		dev := panosDevices("@HOSTNAME@", display, sc.Device["rules"], sc.Device["addrs"])
+		if raw := sc.Device["raw"]; raw != "" {
+			// Several vsys: only the first one loses its marker.
+			dev = raw
+			if !markerShown {
+				dev = strings.Replace(dev, "<display-name>netspoc ", "<display-name>customer ", 1)
+			}
+		}
 		dev = strings.Replace(dev, "</hostname>", "</hostname>"+banner, 1)
 		lc.HTTP.Panos = &sim.DumbPanos{Devices: dev}
 		m := &lc.HTTP.Members[0]
